@@ -451,6 +451,93 @@ def gen_structured(rng, g, cfg, name, nodes, prices):
     return {'kind': 'StructuredAsset', 'name': name, 'nodes': ext, 'assets': assets}
 
 
+def gen_plant(rng, g, cfg, name, power, heat, fuel, prices):
+    """Plant (heat is None) or CHPAsset: unit commitment parameters without start / shutdown ramp profiles"""
+    a = {'kind': 'Plant' if heat is None else 'CHPAsset', 'name': name,
+         'nodes': [power] + ([heat] if heat is not None else []) + ([fuel] if fuel is not None else [])}
+    a['price'] = new_price(rng, g, prices, 0, 6) if rng.random() < 0.7 else None
+    a['min_cap'] = k8(rng, 0.5, 3) if rng.random() < 0.85 else 0.0
+    a['max_cap'] = a['min_cap'] + k8(rng, 1, 6)
+    if rng.random() < 0.6:
+        a['ramp'] = max(a['min_cap'], k8(rng, 1, 5))
+    r = rng.random()
+    if r < 0.45:
+        a['min_runtime'] = rng.randint(2, 4)
+    if 0.3 < r < 0.8:
+        a['min_downtime'] = rng.randint(2, 4)
+    if rng.random() < 0.5:
+        a['time_already_running'] = rng.choice([1, 2, 5])
+        a['time_already_off'] = 0
+        a['last_dispatch'] = k8(rng, max(a['min_cap'], 0.5), a['max_cap'])
+    else:
+        a['time_already_running'] = 0
+        a['time_already_off'] = rng.choice([1, 2, 5])
+        a['last_dispatch'] = 0.0
+    if rng.random() < 0.5:
+        a['start_costs'] = k8(rng, 0.5, 6)
+    if rng.random() < 0.4:
+        a['running_costs'] = k8(rng, 0, 2)
+    if fuel is not None:
+        a['fuel_efficiency'] = rng.choice([0.5, 0.25, 1.0, 0.625])
+        if rng.random() < 0.5:
+            a['start_fuel'] = k8(rng, 0.25, 3)
+        if rng.random() < 0.5:
+            a['consumption_if_on'] = k8(rng, 0.125, 1)
+    if heat is not None:
+        if rng.random() < cfg.get('p_cf_dict', 0.3):
+            a['conversion_factor_power_heat'] = gen_interval_param(rng, g, 0.25, 1.0, dict(cfg, p_gap=0.0), with_end=True)
+            a['conversion_factor_power_heat']['values'] = [max(v, 0.25) for v in a['conversion_factor_power_heat']['values']]
+        else:
+            a['conversion_factor_power_heat'] = rng.choice([0.25, 0.5, 1.0, 0.75])
+        if rng.random() < 0.7:
+            a['max_share_heat'] = rng.choice([0.5, 1.0, 2.0, 0.25])
+    s, e = gen_window(rng, g, dict(cfg, p_window=cfg.get('p_window_plant', 0.15), window_kinds=['inside', 'left', 'right']))
+    if s is not None:
+        a['start'] = s
+    if e is not None:
+        a['end'] = e
+    return a
+
+
+def gen_plant_portfolio(rng, cfg):
+    """a plant or CHP with markets at its nodes (power market, heat sink, fuel supply)"""
+    g = gen_grid(rng, cfg)
+    prices = {}
+    chp = rng.random() < cfg.get('p_chp', 0.5)
+    fuel = 'F' if rng.random() < cfg.get('p_fuel', 0.6) else None
+    heat = 'H' if chp else None
+    assets = [gen_plant(rng, g, cfg, 'unit', 'P', heat, fuel, prices)]
+    assets.append({'kind': 'SimpleContract', 'name': 'power_mkt', 'nodes': ['P'], 'price': new_price(rng, g, prices, -2, 10), 'min_cap': -50.0, 'max_cap': 50.0})
+    if heat:
+        hs = {'kind': 'SimpleContract', 'name': 'heat_sink', 'nodes': ['H'], 'price': new_price(rng, g, prices, 0, 6), 'min_cap': -k8(rng, 1, 8), 'max_cap': 0.0}
+        if rng.random() < 0.3:
+            hs['max_cap'] = hs['min_cap'] = -k8(rng, 0.25, 1)       # a heat demand that must be met (from the unit or not at all: add a back-up)
+            assets.append({'kind': 'SimpleContract', 'name': 'heat_backup', 'nodes': ['H'], 'price': new_price(rng, g, prices, 8, 14), 'min_cap': 0.0, 'max_cap': 10.0})
+        assets.append(hs)
+    if fuel:
+        assets.append({'kind': 'SimpleContract', 'name': 'fuel_mkt', 'nodes': ['F'], 'price': new_price(rng, g, prices, 0, 3), 'min_cap': 0.0, 'max_cap': 200.0})
+    if rng.random() < 0.3:
+        assets.append(gen_storage(rng, g, dict(cfg, p_window=0.0), 'sto', ['P'], prices))
+    rng.shuffle(assets)
+    return {'grid': g, 'prices': prices, 'assets': assets, 'opts': {}}
+
+
+def gen_many_plants(seed, n, cfg, tag=''):
+    out = []
+    for i in range(n):
+        rng = random.Random('%s/%s/%d' % (seed, tag, i))
+        while True:
+            try:
+                sp = gen_plant_portfolio(rng, cfg)
+                break
+            except Unsafe:
+                continue
+        sp['id'] = '%s%d' % (tag, i)
+        sp['seed'] = '%s/%s/%d' % (seed, tag, i)
+        out.append(sp)
+    return out
+
+
 NAMES = ['a', 'b1', 'c', 'dd', 'e_5', 'f', 'g', 'h2', 'k', 'm']
 
 
